@@ -613,6 +613,28 @@ def rule_port_and_want(ctx, res):
     wv = common.enum_variants(ctx, 'message::Want')
     iwv = {v: k for k, v in wv.items()}
     table = {}
+    # `for tag in TAGS { seq.serialize_element(tag)?; }`: a loop that emits every element of its source once, unfiltered
+    emits_all = {}
+    for p in ws.paths:
+        if p.end != 'loop':
+            continue
+        nx = [(i, literal(c)) for i, c in enumerate(p.conds) if literal(c)[0] == 'variant' and isinstance(literal(c)[1], tuple) and literal(c)[1][0] == 'call'
+              and literal(c)[1][1].split('::')[-1] == 'next' and option_is_some(literal(c)[2]) is True]
+        if len(nx) != 1:
+            continue
+        i, lit = nx[0]
+        site = lit[1][3]
+        elem = ('field', ('downcast', lit[1], 'Some'), '0')
+        later = [literal(c) for c in p.conds[i + 1:]]
+        ses = [e for e in p.effects if e[0] == 'call' and e[1] and e[1].endswith('serialize_element')]
+        plain = all(l[0] == 'variant' and isinstance(l[1], tuple) and l[1][0] == 'call' and l[1][1].endswith('::branch') and find_calls(l[1], 'serialize_element') for l in later)
+        def bare(t):
+            t = strip_transparent(t)
+            while isinstance(t, tuple) and t and t[0] == 'call' and t[1].endswith('Bytes::new') and len(t[2]) == 1:
+                t = strip_transparent(t[2][0])
+            return t
+        ok1 = plain and len(ses) == 1 and bare(ses[0][2][1]) == elem
+        emits_all[site] = emits_all.get(site, True) and ok1
     for p in ws.complete_paths():
         if not (p.ret[0] == 'call' and p.ret[1].endswith('SerializeSeq::end')):
             continue   # `?` exits after a serializer error
@@ -635,6 +657,21 @@ def rule_port_and_want(ctx, res):
                         els.append(x[1])
                     if isinstance(x, tuple) and x and x[0] == 'str':
                         els.append(x[1])
+        if not els:
+            done = [literal(c)[1] for c in p.conds if literal(c)[0] == 'variant' and isinstance(literal(c)[1], tuple) and literal(c)[1][0] == 'call'
+                    and literal(c)[1][1].split('::')[-1] == 'next' and option_is_some(literal(c)[2]) is False]
+            if len(done) == 1 and emits_all.get(done[0][3]) is True:
+                src = done[0][2][0]
+                while isinstance(src, tuple) and src and (src[0] in ('ref', 'deref', 'cast') or (src[0] == 'call' and src[1].split('::')[-1] in ('into_iter', 'iter') and len(src[2]) == 1)):
+                    src = src[1] if src[0] != 'call' else src[2][0]
+                if isinstance(src, tuple) and len(src) == 2 and src[0] == 'array':
+                    for el in src[1]:
+                        vs = [x[1] for x in term_walk(el) if isinstance(x, tuple) and x and x[0] in ('val', 'str')]
+                        els.append(vs[0] if len(vs) == 1 else '?')
+                else:
+                    els.append('?loop over ' + fmt(src)[:40])
+            elif done:
+                els.append('?loop')
         ln = [term_int(e[2][1][2].get('0')) if agg_variant(e[2][1]) == 'Some' else None for e in p.effects if e[0] == 'call' and e[1] and e[1].endswith('serialize_seq')]
         for k in w:
             table.setdefault(k, set()).add((tuple(els), ln[0] if ln else None))
